@@ -218,6 +218,22 @@ func decProtoOne(c *decProtoCase, seq []int, r *core.Rec, wrap func(*decProtoCas
 	// (complete or interrupted), not by any event. Then the weaker, state-independent clause applies to a further
 	// Repair on it: a nil error still means every file is original.
 	ownOnly := false
+	// pendingRetry: the object's last call was a Repair on fresh tables that failed only because of an injected write
+	// fault while the loss was within capacity; nothing else has happened since
+	pendingRetry := false
+	truth := func() (lost, capacity int) {
+		if p2 != nil {
+			t := p2.Truth(cur)
+			lost, capacity = t.K, t.N
+			if !t.Scan.OverlapFree {
+				lost = t.Total + 1 // ambiguous occurrence set: claim nothing about capacity
+				r.Count("skipped_ambiguous", 1)
+			}
+			return
+		}
+		t := p1.Truth(cur)
+		return t.UnusableData, t.UsableParity
+	}
 	var ops []int
 	for _, op := range seq {
 		if op == dpLoadBoth {
@@ -232,6 +248,9 @@ func decProtoOne(c *decProtoCase, seq []int, r *core.Rec, wrap func(*decProtoCas
 		switch op {
 		case dpDelA, dpChangeA, dpDelB, dpRestoreAll, dpDelVol0, dpRestoreVol0:
 			ownOnly = false
+			pendingRetry = false
+		case dpLoadFiles, dpLoadParity, dpLoadFilesFault1, dpLoadParityFault2, dpLoadParityFault3:
+			pendingRetry = false
 		}
 		switch op {
 		case dpDelA:
@@ -396,6 +415,7 @@ func decProtoOne(c *decProtoCase, seq []int, r *core.Rec, wrap func(*decProtoCas
 			if root != "" {
 				continue
 			}
+			l0, c0 := truth()
 			k, failAt := 0, 1+op-dpRepairTorn1
 			cur.Hook = func(index int, kind, path string, data []byte) *envfs.Fault {
 				if kind == "write" {
@@ -431,27 +451,19 @@ func decProtoOne(c *decProtoCase, seq []int, r *core.Rec, wrap func(*decProtoCas
 				viol("torn-write-not-reported", "file write %d of this Repair failed half-way, but Repair returned nil", failAt)
 				return
 			}
+			pendingRetry = (fresh || pendingRetry) && k >= failAt && l0 <= c0
 			r.Count("decproto_interrupted_repairs", 1)
 			key += "Rf"
 		case dpRepair, dpRepairDC:
-			lost, capacity := 0, 0
 			var damaged []string
 			for i, p := range paths {
 				if b, ok := cur.Get(p); !ok || !bytes.Equal(b, datas[i]) {
 					damaged = append(damaged, filepath.Join(root, p))
 				}
 			}
-			if p2 != nil {
-				t := p2.Truth(cur)
-				lost, capacity = t.K, t.N
-				if !t.Scan.OverlapFree {
-					lost = t.Total + 1 // ambiguous occurrence set: claim nothing about capacity
-					r.Count("skipped_ambiguous", 1)
-				}
-			} else {
-				t := p1.Truth(cur)
-				lost, capacity = t.UnusableData, t.UsableParity
-			}
+			lost, capacity := truth()
+			wasPendingRetry := pendingRetry
+			pendingRetry = false
 			before := cur.Snapshot()
 			var rp []string
 			var rerr error
@@ -497,6 +509,13 @@ func decProtoOne(c *decProtoCase, seq []int, r *core.Rec, wrap func(*decProtoCas
 							break
 						}
 					}
+					continue
+				}
+				if wasOwnOnly && wasPendingRetry && rerr != nil && lost <= capacity && !strings.Contains(rerr.Error(), "singular") {
+					// the fault is gone, nothing but this object's own interrupted Repair touched the directory, and what is
+					// lost now (torn file included) is within capacity: the retry has to complete
+					r.Count("decproto_judged_retries", 1)
+					viol("retry-after-write-fault-failed-within-capacity:"+errClass(rerr), "a Repair on fresh tables failed on an injected write fault; the retry on the same object, with the fault gone and lost %d <= capacity %d in the directory as it is now, returned %v", lost, capacity, rerr)
 					continue
 				}
 				r.Count("decproto_unjudged_calls", 1)
